@@ -27,6 +27,7 @@ import (
 	"github.com/nspcc-dev/neofs-sdk-go/checksum"
 	neofscrypto "github.com/nspcc-dev/neofs-sdk-go/crypto"
 	"github.com/nspcc-dev/neofs-sdk-go/object"
+	sessionv2 "github.com/nspcc-dev/neofs-sdk-go/session/v2"
 	"github.com/nspcc-dev/neofs-sdk-go/version"
 	"google.golang.org/protobuf/encoding/protowire"
 )
@@ -103,6 +104,39 @@ func fillHeader(rng *rand.Rand, o *object.Object, payloadLen int, big bool) {
 		}
 		o.SetAttributes(attrs...)
 	}
+	if p(20) {
+		// the only header field that is encoded BEHIND the split field: with it the split
+		// header is not the tail of the header
+		if tok := genTokenV2(rng); tok != nil {
+			o.SetSessionTokenV2(tok)
+		}
+	}
+}
+
+// genTokenV2 builds a (structurally complete, not cryptographically valid) session token
+// v2 from the seeded stream; nil if the SDK refuses the parts.
+func genTokenV2(rng *rand.Rand) *sessionv2.Token {
+	var tok sessionv2.Token
+	tok.SetVersion(sessionv2.TokenCurrentVersion)
+	tok.SetIssuer(verifkit.RandUser(rng))
+	for n := 1 + rng.IntN(2); n > 0; n-- {
+		if err := tok.AddSubject(sessionv2.NewTargetUser(verifkit.RandUser(rng))); err != nil {
+			return nil
+		}
+	}
+	base := time.Unix(1_600_000_000+int64(rng.IntN(1<<28)), 0)
+	tok.SetIat(base)
+	tok.SetNbf(base)
+	tok.SetExp(base.Add(time.Duration(1+rng.IntN(100000)) * time.Second))
+	ctx, err := sessionv2.NewContext(verifkit.RandCID(rng), []sessionv2.Verb{sessionv2.VerbObjectPut, sessionv2.VerbObjectGet}[:1+rng.IntN(2)])
+	if err != nil {
+		return nil
+	}
+	if err := tok.AddContext(ctx); err != nil {
+		return nil
+	}
+	tok.AttachSignature(*genSig(rng))
+	return &tok
 }
 
 // Object generates a valid object: any of ID, signature, header and payload may be
@@ -359,15 +393,140 @@ func structural(rng *rand.Rand, m []byte) ([]byte, string) {
 	}
 }
 
-// Mutate applies 1..3 seeded mutation steps to x (x is not modified): byte-level noise
-// or structure-aware steps on a randomly chosen (nested) message, with the enclosing
-// lengths usually re-encoded so that the damage stays where it was put.
+// LenField is one length-delimited field of an encoding, at any nesting depth.
+type LenField struct {
+	From, LenAt, ValFrom, To int // absolute offsets: tag, length varint, value, end
+	Depth                    int    // 0 = field of the top-level message
+	Path                     string // field numbers from the top, e.g. "3.11.4"
+	Ends                     []int  // ends of the enclosing messages, innermost first; the last one is len(b)
+}
+
+// LenFields lists the LEN fields of b down to maxDepth: a LEN value is descended into when
+// it is non-empty and parses completely as a sequence of fields (a string that happens to
+// do so is harmless, it only yields more places to damage).
+func LenFields(b []byte, maxDepth int) []LenField {
+	var out []LenField
+	var walk func(from, to, depth int, path string, ends []int)
+	walk = func(from, to, depth int, path string, ends []int) {
+		off := from
+		for off < to {
+			num, typ, n := protowire.ConsumeTag(b[off:to])
+			if n < 0 {
+				return
+			}
+			m := protowire.ConsumeFieldValue(num, typ, b[off+n:to])
+			if m < 0 {
+				return
+			}
+			if typ == protowire.BytesType {
+				_, k := protowire.ConsumeVarint(b[off+n : to])
+				f := LenField{From: off, LenAt: off + n, ValFrom: off + n + k, To: off + n + m, Depth: depth, Ends: ends}
+				f.Path = strings.TrimPrefix(fmt.Sprintf("%s.%d", path, num), ".")
+				out = append(out, f)
+				if depth < maxDepth && f.To > f.ValFrom && parsesAsMessage(b[f.ValFrom:f.To]) {
+					walk(f.ValFrom, f.To, depth+1, f.Path, append([]int{f.To}, ends...))
+				}
+			}
+			off += n + m
+		}
+	}
+	walk(0, len(b), 0, "", []int{len(b)})
+	return out
+}
+
+func parsesAsMessage(v []byte) bool {
+	off := 0
+	for off < len(v) {
+		num, typ, n := protowire.ConsumeTag(v[off:])
+		if n < 0 {
+			return false
+		}
+		m := protowire.ConsumeFieldValue(num, typ, v[off+n:])
+		if m < 0 {
+			return false
+		}
+		off += n + m
+	}
+	return true
+}
+
+// Retarget is one way of rewriting the declared length of a LEN field.
+type Retarget struct {
+	Len  uint64
+	Name string // which boundary the new end of the field is aimed at
+}
+
+// Retargets lists the boundary-aimed lengths for f: every other length prefix of b stays
+// as it is (outer framing intact, enclosing lengths stale), and the field is made to end
+// at / one byte before / one byte behind the end of each enclosing message and of the
+// buffer, half-way between two enclosing ends, one byte off its true end, at its own
+// start, and far behind the buffer.  Offsets take the changed size of the length varint
+// into account.  Lengths equal to the present one are left out.
+func Retargets(b []byte, f LenField) []Retarget {
+	var out []Retarget
+	seen := map[uint64]bool{uint64(f.To - f.ValFrom): true}
+	oldVar := f.ValFrom - f.LenAt
+	add := func(end int, shifts bool, name string) {
+		// the value starts at ValFrom+d when the varint grows by d; the ends of the enclosing
+		// messages do not move (their lengths are stale), the end of the buffer does
+		l := end - f.ValFrom
+		if !shifts {
+			for range 3 {
+				if l < 0 {
+					return
+				}
+				d := protowire.SizeVarint(uint64(l)) - oldVar
+				if nl := end - f.ValFrom - d; nl == l {
+					break
+				} else {
+					l = nl
+				}
+			}
+		}
+		if l < 0 || seen[uint64(l)] {
+			return
+		}
+		seen[uint64(l)] = true
+		out = append(out, Retarget{uint64(l), name})
+	}
+	add(f.ValFrom, true, "empty")
+	add(f.To-1, true, "own-end-1")
+	add(f.To+1, true, "own-end+1")
+	for i, e := range f.Ends {
+		buf := i == len(f.Ends)-1
+		lvl := fmt.Sprintf("enclosing%d", i)
+		if buf {
+			lvl = "buffer"
+		}
+		add(e-1, buf, lvl+"-end-1")
+		add(e, buf, lvl+"-end")
+		add(e+1, buf, lvl+"-end+1")
+		if !buf && f.Ends[i+1]-e > 3 {
+			add(e+(f.Ends[i+1]-e)/2, false, lvl+"-end..next-end")
+		}
+	}
+	add(len(b)+100, true, "buffer-end+100")
+	add(1<<31, true, "huge")
+	return out
+}
+
+// ApplyRetarget returns a copy of b in which the length of f is rewritten.
+func ApplyRetarget(b []byte, f LenField, t Retarget) []byte {
+	out := append([]byte(nil), b[:f.LenAt]...)
+	out = protowire.AppendVarint(out, t.Len)
+	return append(out, b[f.ValFrom:]...)
+}
+
+// Mutate applies 1..3 seeded mutation steps to x (x is not modified): byte-level noise,
+// structure-aware steps on a randomly chosen (nested) message, with the enclosing
+// lengths usually re-encoded so that the damage stays where it was put, or the length of
+// one nested LEN field re-aimed at a boundary of an enclosing message / the buffer.
 func Mutate(rng *rand.Rand, x []byte) ([]byte, []string) {
 	b := append([]byte(nil), x...)
 	var ops []string
 	steps := 1 + rng.IntN(3)
 	for s := 0; s < steps; s++ {
-		op := rng.IntN(12)
+		op := rng.IntN(14)
 		if len(b) == 0 {
 			op = 3
 		}
@@ -397,6 +556,28 @@ func Mutate(rng *rand.Rand, x []byte) ([]byte, []string) {
 			n := 1 + rng.IntN(min(16, len(b)-i, len(b)-j))
 			copy(b[j:j+n], append([]byte(nil), b[i:i+n]...))
 			ops = append(ops, "splice")
+		case 6, 7:
+			// the declared length of one (nested) LEN field aimed at a boundary of an enclosing
+			// message or of the buffer, everything else untouched
+			fs := LenFields(b, 4)
+			if len(fs) == 0 {
+				continue
+			}
+			f := fs[rng.IntN(len(fs))]
+			if rng.IntN(2) == 0 { // half of the time prefer the deepest fields
+				for range 3 {
+					if g := fs[rng.IntN(len(fs))]; g.Depth > f.Depth {
+						f = g
+					}
+				}
+			}
+			ts := Retargets(b, f)
+			if len(ts) == 0 {
+				continue
+			}
+			tg := ts[rng.IntN(len(ts))]
+			b = ApplyRetarget(b, f, tg)
+			ops = append(ops, fmt.Sprintf("len-retarget@depth%d", f.Depth))
 		default:
 			chain := pickMessage(rng, b)
 			from, to := 0, len(b)
